@@ -14,7 +14,7 @@
     Oracle (runs on every case, on the IMPLEMENTATION's observation):
       - src is not valid UTF-8        => the scanner must report an error;
       - the reference lexer fails     => the scanner must report an error; its tokens must begin with
-        the agreed grammar tokens (LexPrefixSpec.agreed: all but the last before the failure point)
+        the agreed grammar tokens (LexPrefixSpec.agreed: all of them, except a comment that ends at the failure point)
         and no error may lie before the end of those (instance of LexPrefix.lex_agrees_before_failure);
       - the reference lexer succeeds  => no error, and in ScanIgnored mode the token list equals the
         reference token list (kind, literal = UTF-8 of the token text, line, column, decoded value),
